@@ -10,14 +10,14 @@ RangeOf(q) == {q[i] : i \in 1..Len(q)}
 ExplainInit ==
   /\ \E k \in 1..Len(Cases) : \E d \in 1..Len(DevSets) :
        /\ cfg = [pa |-> Cases[k].pa, ra |-> Cases[k].ra, stream |-> Cases[k].stream, tagmode |-> Cases[k].tagmode,
-                 withmd |-> Cases[k].withmd, explicit |-> Cases[k].explicit, raw |-> Cases[k].raw, devs |-> RangeOf(DevSets[d].devs)]
+                 withmd |-> Cases[k].withmd, explicit |-> Cases[k].explicit, raw |-> Cases[k].raw, shared |-> Cases[k].shared, devs |-> RangeOf(DevSets[d].devs)]
        /\ pv = Cases[k].pv /\ rv = Cases[k].rv
   /\ pc = "eval" /\ accepted = FALSE /\ proto = <<>> /\ rpcs = <<>> /\ descok = FALSE
   /\ wire = [loc |-> "none", v |-> Absent] /\ delivered = Absent /\ invoked = FALSE /\ errname = "none"
   /\ rwire = [loc |-> "none", v |-> Absent] /\ returned = Absent /\ cerr = "none"
 ExplainSpec == ExplainInit /\ [][Next]_vars
 EmitExplain == pc = "done" =>
-  PrintT(<<"VEC", ToJson([pa |-> cfg.pa, ra |-> cfg.ra, stream |-> cfg.stream, tagmode |-> cfg.tagmode, withmd |-> cfg.withmd, explicit |-> cfg.explicit, raw |-> cfg.raw,
+  PrintT(<<"VEC", ToJson([pa |-> cfg.pa, ra |-> cfg.ra, stream |-> cfg.stream, tagmode |-> cfg.tagmode, withmd |-> cfg.withmd, explicit |-> cfg.explicit, raw |-> cfg.raw, shared |-> cfg.shared,
      pv |-> pv, rv |-> rv, devs |-> SetSeq(cfg.devs),
      mech |-> [ accepted |-> accepted, proto |-> proto, rpcs |-> rpcs, descok |-> descok,
                 where |-> wire.loc, delivered |-> delivered, invoked |-> invoked, errname |-> errname,
